@@ -24,7 +24,7 @@ RULE = ('histories = all sequences over {start, shutdown} of length 1..4; enviro
         'shutdown after a start with a fault, a pre-existing hook, or NO_TRACE'
         " ; start and shutdown on different threads x {sys hook, threading hook, caller's hook, NO_TRACE}; a second start() / a shutdown() arriving while the first start() is parked in a plugin's resource(); the starting thread ended and its ident given to a later thread (lazy / calling shutdown itself)")
 RULE_ADDED = "rounds 3-5: the starting thread's ident recycled; lifecycle sequences: two agents (either leaves first), restart from inside pending work, restart from another thread, start() entered again inside start(), the same agent restarted against a faithful service; three handlers x every sequence of their starts and shutdowns (depth 5 quick / 7 thorough) x 3 hook environments x 2 final shutdown orders (agents-bfs); restart under a second live agent; shutdown() arriving inside start()"
-RULE_ADDED8 = "round 8: three handlers x two threads (agents-threads: every sequence of (handler, thread) operations, depth 5 quick / 6 thorough, worker born before the first or the second operation; each thread ends with the function it would have had); NO_TRACE changed between start and shutdown, NO_TRACE reading 'false'; twelve agents; the calls in progress (calling function, blocked thread) have the f_trace they had before start"
+RULE_ADDED8 = "round 8: three handlers x two threads (agents-threads: every sequence of (handler, thread) operations, depth 5 quick / 6 thorough, worker born before the first or the second operation; each thread ends with the function it would have had); NO_TRACE changed between start and shutdown, NO_TRACE reading 'false'; twelve agents; the calls in progress (calling function, blocked thread) have the f_trace they had before start; round 9: shutdown() arriving inside the agent's own trace event (from create_span) after a hit that read the variables - result of the function, span closed once, hooks (in-event); a handler restarted with NO_TRACE set stays out of threads and hook chains that carried its function (no-trace-restart); a never-started agent puts nothing on the calls in progress"
 RULE = RULE + ' ; ' + RULE_ADDED + ' ; ' + RULE_ADDED8
 ASSUMPTIONS = ['a start after a shutdown (restart) may be refused or work, but must leave hooks consistent with `started`',
                'the poll interval is long (no tick during the sequential histories); ticks racing shutdown are explored in the E1 harness']
@@ -118,6 +118,13 @@ def cases(tier, seed):
     for st, tt in ((0, 0), (1, 1)):
         out.append({'k': 'agents-threads', 'depth': 6, 'born': 1, 'sys': st, 'thr': tt,
                     'seq': [[0, 'm'], [1, 'w'], [0, 'm'], [2, 'm'], [0, 'w'], [1, 'w']]})
+    # shutdown() arriving on a thread that is inside one of the agent's own trace events (a signal handler does), after a hit that read the variables
+    for what in ('log-then-span', 'span-only'):
+        for st, tt in ((0, 0), (1, 1)):
+            out.append({'k': 'in-event', 'what': what, 'sys': st, 'thr': tt})
+    # the same handler started again with NO_TRACE set: it stays stopped for the threads and hooks that still carry its function
+    for how in ('blocked-worker', 'second-agent'):
+        out.append({'k': 'no-trace-restart', 'how': how})
     # a second start() / a shutdown() arriving while the first start() is still in progress (parked in a plugin's resource())
     for second in ('start', 'shutdown'):
         for st in (0, 1):
@@ -300,6 +307,118 @@ def recycled_case(ctx, desc):
     elif obs.get('late_after') is not want:
         ctx.violation('C14/recycled-ident/thread-given-the-dead-threads-hook', f'{label}: afterwards the later thread has sys trace function '
                       f'{name(obs.get("late_after"))}, it is to have {name(want)}', desc)
+
+
+def in_event_case(ctx, desc):
+    """shutdown() is called from inside create_span, that is from inside the agent's trace event for a line of calc(): the function goes on with
+    its variables as they were, the span opened in that event is closed exactly once, then the thread has the function it had before."""
+    from deep.api.tracepoint.tracepoint_config import TracePointConfig  # noqa: F401
+    from deep.api.tracepoint.trigger import build_trigger
+    pre = (fa if desc['sys'] else None, fb if desc['thr'] else None)
+    name = lambda f: getattr(f, '__name__', f) if getattr(f, '__self__', None) is None else 'agent'      # noqa: E731
+    ns, path = rig.load_program('c14calc', 'def calc():\n    a = 1\n    b = 2\n    c = a + b\n    d = c + 1\n    return a + b + c + d\ndef touch():\n    return 1\n')
+    j = rig.Journal()
+    state = {'agent': None, 'done': False}
+
+    class Stopper(rig.RecSpanProcessor):
+        def create_span(self_, name_, context_id, tracepoint_id):
+            span = rig.RecSpanProcessor.create_span(self_, name_, context_id, tracepoint_id)
+            if not state['done']:
+                state['done'] = True
+                state['agent'].handler.shutdown()       # what a signal handler does that arrives now
+            return span
+    agent = state['agent'] = rig.Agent(plugins=[rig.RecLogger(j), Stopper(j)], journal=j)
+    base = {'fire_count': '-1', 'fire_period': '0'}
+    triggers = [build_trigger('tp-span', 'c14calc.py', 4, dict(base, span='line', snapshot='no_collect'), [], [])]
+    if desc['what'] == 'log-then-span':
+        triggers.insert(0, build_trigger('tp-log', 'c14calc.py', 3, dict(base, log_msg='b is next, a={a}', snapshot='no_collect'), [], []))
+    saved = (sys.gettrace(), threading.gettrace())
+    obs = {}
+    ctx.case()
+    ctx.nt(('in-event', desc['what'], desc['sys'], desc['thr']))
+    try:
+        sys.settrace(pre[0])
+        threading.settrace(pre[1])
+        agent.handler.start()
+        agent.install(triggers)
+        try:
+            obs['result'] = ns['calc']()
+        except BaseException as e:
+            obs['result'] = e
+        for _ in range(3):
+            ns['touch']()
+        obs['after'] = (sys.gettrace(), threading.gettrace())
+    finally:
+        sys.settrace(saved[0])
+        threading.settrace(saved[1])
+    opens = [e for e in j.events if e[0] == 'span_open']
+    closes = [e for e in j.events if e[0] == 'span_close']
+    label = f'shutdown() inside the trace event of the line with a span tracepoint ({desc["what"]}), hooks before: sys={name(pre[0])} threading={name(pre[1])}'
+    ctx.outcome(('in-event', desc['what'], repr(obs['result']), len(opens), len(closes)))
+    if obs['result'] != 10:
+        ctx.violation('C14/in-event/application-changed', f'{label}: calc() gives {obs["result"]!r}, without the agent 10', desc)
+    elif len(opens) != 1 or len(closes) != 1:
+        ctx.violation('C14/in-event/span-not-completed', f'{label}: {len(opens)} spans opened, {len(closes)} closed', desc)
+    elif obs['after'][0] is not pre[0] or obs['after'][1] is not pre[1]:
+        ctx.violation('C14/in-event/hooks-not-restored', f'{label}: afterwards sys={name(obs["after"][0])} threading={name(obs["after"][1])}', desc)
+
+
+def no_trace_restart_case(ctx, desc):
+    """A handler that was live is shut down and started again with NO_TRACE set: it is to stay out of the process - on a thread that still carries
+    its function (blocked since its first life), and in the chain of functions other agents remember."""
+    from deep.api.tracepoint.trigger import build_trigger
+    name = lambda f: getattr(f, '__name__', f) if getattr(f, '__self__', None) is None else 'agent'      # noqa: E731
+    ns, path = rig.load_program('c14work', 'def work():\n    x = 1\n    return x\ndef wait(ev):\n    ev.wait(20)\n    return work()\ndef touch():\n    return 1\n')
+    saved = (sys.gettrace(), threading.gettrace())
+    obs = {}
+    ctx.case()
+    ctx.nt(('no-trace-restart', desc['how']))
+    b = rig.Agent(custom={'NO_TRACE': False}, plugins=[])
+    base = {'fire_count': '-1', 'fire_period': '0'}
+    try:
+        sys.settrace(None)
+        threading.settrace(None)
+        if desc['how'] == 'blocked-worker':
+            b.handler.start()
+            ev = threading.Event()
+            t = threading.Thread(target=ns['wait'], args=(ev,), name='host-pool')
+            t.start()
+            time.sleep(0.05)
+            b.handler.shutdown()
+            b.config._ConfigService__custom['NO_TRACE'] = True
+            b.handler.start()
+            b.install([build_trigger('tp', 'c14work.py', 2, dict(base), [], [])])
+            ev.set()
+            t.join(20)
+            obs['snapshots'] = len(b.snapshots)
+            b.handler.shutdown()
+        else:
+            a = rig.Agent(plugins=[])
+            b.handler.start()
+            a.handler.start()
+            b.handler.shutdown()
+            b.config._ConfigService__custom['NO_TRACE'] = True
+            b.handler.start()
+            a.handler.shutdown()
+            for _ in range(3):
+                ns['touch']()
+            obs['hooks_with_b_disabled'] = (sys.gettrace(), threading.gettrace())
+            b.handler.shutdown()
+        for _ in range(3):
+            ns['touch']()
+        obs['after'] = (sys.gettrace(), threading.gettrace())
+    finally:
+        sys.settrace(saved[0])
+        threading.settrace(saved[1])
+    label = f'a handler shut down and started again with NO_TRACE set ({desc["how"]})'
+    ctx.outcome(('no-trace-restart', desc['how'], obs.get('snapshots'), tuple(name(f) for f in obs.get('hooks_with_b_disabled', ()))))
+    if obs.get('snapshots'):
+        ctx.violation('C14/no-trace-restart/acts', f'{label}: {obs["snapshots"]} snapshot(s) taken on the thread that carried its function', desc)
+    elif any(f is not None for f in obs.get('hooks_with_b_disabled', ())):
+        ctx.violation('C14/no-trace-restart/installed-by-another-agent', f'{label}: the other agent left and put it back as sys={name(obs["hooks_with_b_disabled"][0])} '
+                      f'threading={name(obs["hooks_with_b_disabled"][1])}', desc)
+    elif obs['after'][0] is not None or obs['after'][1] is not None:
+        ctx.violation('C14/no-trace-restart/hooks-not-restored', f'{label}: afterwards sys={name(obs["after"][0])} threading={name(obs["after"][1])}', desc)
 
 
 def agents_threads(ctx, desc):
@@ -513,6 +632,10 @@ def lifecycle_case(ctx, desc):
                         d2.task_handler._pool.submit(lambda: None).result(5)
                     except BaseException as e:
                         obs['raised'] = e
+                    f, obs['never_started_on_frames'] = sys._getframe(), 0
+                    while f is not None:
+                        obs['never_started_on_frames'] += getattr(f.f_trace, '__self__', None) is d2.trigger_handler
+                        f = f.f_back
                     d.start()
                     d.shutdown()
                     for _ in range(3):
@@ -694,6 +817,9 @@ def lifecycle_case(ctx, desc):
     elif how.startswith('no-trace-false') and not all(getattr(f, '__self__', None) is d.trigger_handler for f in obs['hooks_while_started']):
         ctx.violation(f'C14/lifecycle/{how}/hooks-not-installed', f'{label}: NO_TRACE reads false, yet while started sys={name(obs["hooks_while_started"][0])} '
                       f'threading={name(obs["hooks_while_started"][1])}', desc)
+    elif obs.get('never_started_on_frames'):
+        ctx.violation(f'C14/lifecycle/{how}/reaches-into-the-calls-in-progress', f'{label}: an agent that was never started has put its function on '
+                      f'{obs["never_started_on_frames"]} calls in progress of this thread', desc)
     elif how == 'frames-released' and obs.get('f_after') != obs.get('f_before', ()):
         ctx.violation(f'C14/lifecycle/{how}/calls-in-progress-keep-the-agent', f'{label}: trace function of the calls in progress (the calling function, a blocked thread) before start '
                       f'{tuple(name(f) for f in obs.get("f_before", ()))}, with a tracepoint installed {tuple(name(f) for f in obs.get("f_during", ()))}, after shutdown '
@@ -811,6 +937,10 @@ def run_case(ctx, desc):
         return agents_bfs(ctx, desc)
     if desc['k'] == 'agents-threads':
         return agents_threads(ctx, desc)
+    if desc['k'] == 'in-event':
+        return in_event_case(ctx, desc)
+    if desc['k'] == 'no-trace-restart':
+        return no_trace_restart_case(ctx, desc)
     if desc['k'] == 'overlap':
         return overlap_case(ctx, desc)
     faults = [desc['fault']] if 'fault' in desc else FAULTS
